@@ -4,7 +4,7 @@ bit-identical; volume = reduced sum) on containers, whole plates and slices (via
 and the trash link in recipes (amount a remove step took out = what tracking reports as discarded)."""
 from __future__ import annotations
 
-from .common import shard, run_cases, BASE_ASSUMPTIONS
+from .common import shard, run_cases, BASE_ASSUMPTIONS, repo_suite, repo_suite_job
 
 ID = 'C17'
 LEVEL = 'exploration'
@@ -29,12 +29,21 @@ def required_buckets(tier):
 
 
 def plan(tier, seed):
+    jobs = _plan(tier, seed)
+    if tier != 'quick' or False:
+        jobs = jobs + repo_suite_job()
+    return jobs
+
+
+def _plan(tier, seed):
     if tier == 'quick':
         return shard('history', 200, 8) + shard('recipe', 120, 4)
     return shard('history', 5000, 24) + shard('recipe', 3000, 12)
 
 
 def run_job(job):
+    if job['kind'] == 'repo_suite':
+        return run_cases(job, repo_suite)
     return run_cases(job, history if job['kind'] == 'history' else recipe)
 
 
